@@ -46,7 +46,7 @@ def source(draw, idx):
         twin['customs'] = {c: draw(st.sampled_from(['WIRE', 'ACH-OUT', 'alice', 'bob', ''])) for c in twin['customs']}
         twin['loc'] = draw(st.sampled_from(['', 'WA', 'NY', base['loc']]))
         rows.insert(draw(st.integers(0, len(rows))), twin)
-    return {'layout': lay, 'rows': rows, 'path_style': draw(st.sampled_from(['plain', 'plain', 'plain', 'dot_slash', 'absolute', 'hidden_dir', 'parent'])), 'state': draw(st.sampled_from(['ok', 'ok', 'ok', 'ok', 'ok', 'ok', 'missing', 'garbage', 'directory', 'late_garbage']))}
+    return {'layout': lay, 'rows': rows, 'path_style': draw(st.sampled_from(['plain', 'plain', 'plain', 'dot_slash', 'absolute', 'hidden_dir', 'parent'])), 'state': draw(st.sampled_from(['ok', 'ok', 'ok', 'ok', 'ok', 'ok', 'missing', 'garbage', 'directory', 'late_garbage', 'unclosed_quote']))}
 
 
 @st.composite
@@ -172,6 +172,9 @@ def materialise(b, bd, drop_source=None, mutate_source=None):
         elif state == 'late_garbage':
             # readable rows first, the undecodable bytes only beyond the reader's first 8 KiB chunk: the file fails PART-WAY through reading
             bd.write(rel, text.encode('utf-8') + b'\n' * 9000 + b'\xff\xfe\x00\x80garbage\xc3\x28\n' * 3, binary=True)
+        elif state == 'unclosed_quote':
+            # a damaged export: a quote that is never closed, followed by more than the csv module's field limit - the READER gives up (csv.Error)
+            bd.write(rel, text + '"' + 'x' * 140000 + '\n')
         elif state == 'directory':
             os.makedirs(bd.path(rel), exist_ok=True)
         info.append({'case': case, 'src': src, 'state': state, 'path': bd.path(rel), 'expected_rows': expected if state == 'ok' else []})
